@@ -211,6 +211,20 @@ def run_area(spec):
         with warnings.catch_warnings():
             warnings.simplefilter("ignore")
             out["lonlat2colrow_scalar"] = [index_scalar(area.lonlat2colrow, float(p[0]), float(p[1])) for p in pl[:min(ns, 3)]]
+    # ---- deprecated / alternative entry points of the same accessors
+    al = {}
+    with warnings.catch_warnings():
+        warnings.simplefilter("ignore")
+        for name, fn in (("get_proj_vectors_dask", lambda: pair_out(area.get_proj_vectors_dask())),
+                         ("get_proj_coords_dask", lambda: pair_out(area.get_proj_coords_dask())),
+                         ("get_lonlats_dask", lambda: pair_out(area.get_lonlats_dask())),
+                         ("get_xy_from_proj_coords", lambda: [masked_out(m) for m in area.get_xy_from_proj_coords(xs, ys)] if pp else None),
+                         ("get_xy_from_lonlat", lambda: [masked_out(m) for m in area.get_xy_from_lonlat(lons, lats)] if pl else None)):
+            try:
+                al[name] = fn()
+            except Exception as e:
+                al[name] = err(e)
+    out["aliases"] = al
     # ---- histories: sequences of lon/lat accessor calls on ONE fresh object each
     hs = []
     for hist in spec.get("histories", []):
